@@ -47,6 +47,14 @@ P_IMPORTS = ("From Ergo Require Import Common.Base Pool.Model Pool.Cases.\n"
              "Local Open Scope Z_scope.\n")
 
 
+def _replay_engine(path):
+    import json
+    try:
+        return json.load(open(path)).get("engine") or ""
+    except Exception:
+        return ""
+
+
 def _is_pool_replay(path):
     import json
     try:
@@ -64,12 +72,23 @@ def _pool(c, n, replay=None):
         c.cases("pool-calls", out, P_IMPORTS, "pcase", corr=[], spec=["spec_reply_reaches_caller", "spec_one_worker"], premise=["premise_ok"])
 
 
+def _metacall(c):
+    """requests to the alias of a meta process with a bounded mailbox: a request the meta process cannot take fails with a
+    delivery error and is never answered by another process; every answer is the meta process's answer to that request"""
+    out = c.harness("call", ["metacall", "-n", "6"], timeout=300)
+    if out:
+        c.monitor("metacall", out)
+
+
 def run(c):
     c.proofs("theories/Properties/C07.v", clean=(c.tier == "thorough"))
     c.translate(['TieIds', 'TieGuard'])  # T1: formulas / constants regenerated from the source, tie theorems re-checked
     n = 260 if c.tier == "quick" else 4000
     if c.replay and _is_guard_replay(c.replay):
         _stale(c, "stale-incarnation", 1, replay=c.replay)
+        return
+    if c.replay and _replay_engine(c.replay).startswith("metacall"):
+        _metacall(c)
         return
     if c.replay and _is_pool_replay(c.replay):
         _pool(c, 1, replay=c.replay)
@@ -78,6 +97,7 @@ def run(c):
     if not c.replay:
         _stale(c, "stale-incarnation", 4 if c.tier == "quick" else 40)
         _pool(c, 100 if c.tier == "quick" else 1500)
+        _metacall(c)
     if c.broken and not c.violations and not c.replay:
         # something no longer checks: spend the extra search budget on the property monitors only
         keep = list(c.broken)
